@@ -1863,6 +1863,18 @@ def trim_sql(self: Generator, expression: exp.Trim, default_trim_type: str = "")
     return f"TRIM({trim_type}{remove_chars}{from_part}{target}{collation})"
 
 
+def mod_func_sql(self: Generator, expression: exp.Mod) -> str:
+    # MOD(a + 1, 7) is parsed with its binary operands wrapped (so that it can be rendered as
+    # (a + 1) % 7); the call syntax delimits the arguments, so the wrappers are dropped again
+    this = expression.this
+    other = expression.expression
+    return self.func(
+        "MOD",
+        this.this if isinstance(this, exp.Paren) else this,
+        other.this if isinstance(other, exp.Paren) else other,
+    )
+
+
 def concat_to_dpipe_sql(self: Generator, expression: exp.Concat) -> str:
     # CONCAT's arguments and result are delimited by the call syntax, the || operator's are not:
     # parenthesize compound operands (and the chain itself inside another operator) to keep the grouping
